@@ -8,7 +8,7 @@ from . import httplib as H
 OCAML = H.OCAML
 GO = H.GO
 PROP = "props/C13.v"
-PROOFS = H.PROTO_PROOFS + H.MODEL_FILES
+PROOFS = H.PROTO_PROOFS + ["proofs/HttpProgress.v"] + H.MODEL_FILES
 
 
 def check_equal(run):
